@@ -228,9 +228,51 @@ fn action<T: Tier>(rep: &mut Report) {
     );
 }
 
+/// q * invert(q) = one() over magnitudes: unit quaternions, quaternions a hair off unit length, very short and very long
+/// ones (powers of two: the scaling is exact in every tier). Anything that treats "nearly zero" as zero, "nearly
+/// unit" as unit, or adds an epsilon to |q|^2 is the same code as the original in the exact tier and on inputs of
+/// ordinary length
+fn invert_magnitudes<T: Tier>(rep: &mut Report) {
+    let uq = alphabet::uq(rep.pick(0, 1));
+    let nb = 3;
+    // (numerator, denominator) of the scale: 2^-40 .. 2^40 and 1 + 2^-k
+    let scales: Vec<(i64, i64)> = vec![(1, 1), (1, 1 << 40), (1, 1 << 24), (1, 1 << 12), (1 << 12, 1), (1 << 24, 1), (1 << 40, 1), ((1 << 10) + 1, 1 << 10), ((1 << 20) + 1, 1 << 20), ((1 << 20) - 1, 1 << 20), (1, 100), (3, 1000)];
+    let n = uq.len() + nb;
+    rep.cases(
+        "invert/magnitudes",
+        T::NAME,
+        &format!("({} rational unit quaternions + {nb} generic ones) x scales {{1, 2^+-12, 2^+-24, 2^+-40, 1 +- 2^-20, 1 + 2^-10, 1/100, 3/1000}}", uq.len()),
+        n * scales.len(),
+        Guard::states(50).distinct(50),
+        |i, ctx| {
+            let (qi, si) = (i / scales.len(), i % scales.len());
+            let sc = T::q(scales[si].0, scales[si].1);
+            let base: Q4<T> = if qi < uq.len() { let (v, d) = uq[qi]; std::array::from_fn(|j| T::q(v[j], d)) } else { vec_from_r(&alphabet::generic(4, qi - uq.len())) };
+            let q: Q4<T> = base.map(|x| x * sc);
+            ctx.describe(|| format!("q={:?} (w,x,y,z) = {:?} * {}/{}", q, base, scales[si].0, scales[si].1));
+            ctx.out(&(qi, si));
+            let (cq, mq) = (mk_q(q), lq::<T>(q));
+            let inv = Rotation::invert(&cq);
+            let minv = model::qinv(mq);
+            eq_v::<T, 4>(ctx, &key("invert/magnitudes"), qa(inv), minv);
+            let one = model::qone::<T::M>();
+            let r1 = model::qmul(mq, minv);
+            let r2 = model::qmul(minv, mq);
+            let e1: Q4<T::M> = std::array::from_fn(|j| one[j].with_err_of(r1[j]));
+            let e2: Q4<T::M> = std::array::from_fn(|j| one[j].with_err_of(r2[j]));
+            eq_v::<T, 4>(ctx, &key("invert/magnitudes/right-identity"), qa(cq * inv), e1);
+            eq_v::<T, 4>(ctx, &key("invert/magnitudes/left-identity"), qa(inv * cq), e2);
+            // and the action of a non-unit quaternion is still the formula, of its inverse the inverse formula's
+            let v: [T; 3] = vec_from_r(&alphabet::generic(3, 1));
+            eq_v::<T, 3>(ctx, &key("mul_vector/formula/magnitudes"), v3(cq * mk_v3(v)), formula(mq, lift_v(v)));
+        },
+    );
+}
+
 fn all<T: Tier>(rep: &mut Report) {
     algebra::<T>(rep);
     action::<T>(rep);
+    invert_magnitudes::<T>(rep);
 }
 
 fn main() {
